@@ -39,7 +39,10 @@ def main():
         dpath = os.path.join(wt, "demo_seeded.py")
         with open(dpath, "w") as fh:
             fh.write(src)
-        helpers = [f for f in os.listdir(origin) if f.startswith("_") and f.endswith(".py")]
+        import re
+        helpers = [f for f in os.listdir(origin) if f.endswith(".py") and f != os.path.basename(demo)
+                   and not re.match(r"demo_[A-Z]\.py$", f) and os.path.isfile(os.path.join(origin, f))
+                   and f not in ("setup.py", "conftest.py")]
         for h in helpers:                   # helper modules shared by several demos
             with open(os.path.join(origin, h)) as fh:
                 htxt = fh.read().replace(origin, wt)
